@@ -1313,14 +1313,15 @@ class RevisionMap:
                 return (rev,)
             else:
                 # Walk is relative to a given revision, not the current state.
-                return (
-                    self._walk(
-                        start=self.get_revision(symbol),
-                        steps=relative,
-                        branch_label=branch_label,
-                        no_overwalk=assert_relative_length,
-                    ),
+                rev = self._walk(
+                    start=self.get_revision(symbol),
+                    steps=relative,
+                    branch_label=branch_label,
+                    no_overwalk=assert_relative_length,
                 )
+                if rev is None:
+                    raise RevisionError("Walked too far")
+                return (rev,)
         else:
             if symbol is None:
                 # Upgrading to current - n is not valid.
@@ -1328,19 +1329,20 @@ class RevisionMap:
                     "Relative revision %s didn't "
                     "produce %d migrations" % (relative, abs(relative))
                 )
-            return (
-                self._walk(
-                    start=(
-                        self.get_revision(symbol)
-                        if branch_label is None
-                        else self.get_revision(
-                            "%s@%s" % (branch_label, symbol)
-                        )
-                    ),
-                    steps=relative,
-                    no_overwalk=assert_relative_length,
+            rev = self._walk(
+                start=(
+                    self.get_revision(symbol)
+                    if branch_label is None
+                    else self.get_revision("%s@%s" % (branch_label, symbol))
                 ),
+                steps=relative,
+                no_overwalk=assert_relative_length,
             )
+            if rev is None:
+                raise RevisionError("Walked too far")
+            elif rev == "base":
+                return ()
+            return (rev,)
 
     def _collect_downgrade_revisions(
         self,
